@@ -26,7 +26,8 @@ def scenarios(tier, seed):
         for i, ports in enumerate(profs if tier == "thorough" else profs[:2]):
             out.append(scenario("%s-p%d" % (b, i), b, ports, seed * 131 + i, tech=dict(tREFI=1800 + 37 * i)))
     # four-activate window binding (tFAW > 4 x tRRD in controller cycles): activates to many banks in quick succession
-    faw = [dict(profile="pingpong", ncmd=n, gap=0, seed=j) for j in range(3)]
+    # (a master holds commands in one bank at a time, so five activates in a row need at least five ports)
+    faw = [dict(profile="random", ncmd=max(120, n // 2), gap=0, seed=j) for j in range(8)]
     for b in (["DDR3"] if tier == "quick" else ["DDR3", "DDR3_half", "DDR4", "DDR2"]):
         out.append(scenario("%s-faw" % b, b, faw, seed * 5 + 2, tech=dict(tREFI=2000, tRRD=[4, 2.5]), speed=dict(tFAW=[None, 50])))
     # the schedule named in the property: a row opened just before the refresh request. A port issues one row-miss command every
